@@ -162,6 +162,8 @@ class Recorder(object):
             self.finished[i] = True
         if kind.startswith("open"):
             gates[int(kind[4:] or 0)].set()
+        if kind == "raise_base":
+            raise TaskAbort("task {0} aborts its thread".format(i))
         if kind == "raise":
             raise EXC[i]
         return RES[i]
@@ -179,6 +181,10 @@ class Recorder(object):
 
 class CallbackError(Exception):
     pass
+
+
+class TaskAbort(BaseException):
+    """a task leaving through a non-Exception BaseException (SystemExit-like)"""
 
 
 def replay(source, filename, universe, client_programs, steps, pool_args=None, timeout_literal=POOL_TIMEOUT):
@@ -270,6 +276,7 @@ def replay(source, filename, universe, client_programs, steps, pool_args=None, t
 
     logging.disable(logging.CRITICAL)
     threading.settrace(baton.tracer)
+    threading.excepthook = lambda args: None  # worker threads killed by TaskAbort: no traceback noise
     mismatch = None
     executed = 0
     try:
